@@ -135,6 +135,8 @@ func c18() *core.Check {
 		// dollar tags: other letter case of the tag inside the body; long tags with cut-off closers
 		us = append(us, gen.RangeUnits("dcase", uint64(len(c18CaseTags)*3125), 5000, "")...)
 		us = append(us, gen.RangeUnits("dlong", uint64(len(c18LongTags)*625), 5000, "")...)
+		// every letter as a one-letter tag and as second letter of a two-letter tag
+		us = append(us, core.Unit{Gen: "dletters", Lo: 0, Hi: 52})
 		// bodies over {delimiter, backslash, x, a byte >= 0x80, the last byte of a
 		// UTF-8 character} (multi-byte "escape" handling in front of a backslash run)
 		for fi := range litForms {
@@ -298,6 +300,16 @@ func c18() *core.Check {
 						pre = ""
 					}
 					emit(core.Case{In: pre + op + string(buf), Kind: "dollar", A: int64(len(pre) + len(op)), S: op})
+				}
+			case "dletters":
+				const ab = "abcdefghijklmnopqrstuvwxyzABCDEFGHIJKLMNOPQRSTUVWXYZ"
+				for i := u.Lo; i < u.Hi; i++ {
+					for _, tag := range []string{ab[i : i+1], "a" + ab[i:i+1], ab[i:i+1] + "q" + ab[i:i+1]} {
+						op := "$" + tag + "$"
+						for _, body := range []string{"ab" + op + " or 1", "a$b" + op, "x", op, "$" + strings.ToLower(tag) + "x$" + op + "y"} {
+							emit(core.Case{In: op + body, Kind: "dollar", A: int64(len(op)), S: op})
+						}
+					}
 				}
 			case "dlong":
 				var buf []byte
